@@ -360,6 +360,15 @@ def run_case(case, *, oracle=True):
                                      f'valid={tab.valid} invalid={tab.invalid} after {where}', k))
                     if tab.tree is None:
                         viol.append(('C17:limit-stop-no-tree', f'stopped by max_steps, tree not built, {where}', k))
+            if (limit is not None and kind in 'SB' and not was_finished and tab.finished and exc is None
+                    and len(tab.history) >= limit):
+                # the step() that finished it began with the recorded steps already at the limit: the limit
+                # check precedes the search, so this tableau was stopped by its step limit, whatever next()
+                # would have answered (seed C17-6: the check skipped when no branch is open)
+                if not tab.premature or tab.valid is not None or tab.invalid is not None:
+                    viol.append(('C17:limit-reached-not-premature',
+                                 f'finished with len(history)={len(tab.history)} >= max_steps={limit} but '
+                                 f'premature={tab.premature} valid={tab.valid} invalid={tab.invalid} after {where}', k))
             if isinstance(exc, errors.ProofTimeoutError):
                 if not tab.finished or FLAG.TIMED_OUT not in tab.flag:
                     viol.append(('C17:timeout-not-finished',
